@@ -420,7 +420,11 @@ func check(prop, tier string) int {
 			}
 			if err != nil && !(meta.Race && gotSummary) {
 				// (under -race a worker that saw a race report exits 1 after finishing its runs)
-				trouble = append(trouble, err.Error()+"\n"+tail(out, 60))
+				// keep the whole output: the reason of a crash is at its beginning
+				crash := filepath.Join(verifDir, "replays", fmt.Sprintf("crash-%s-w%d.txt", prop, w))
+				_ = os.MkdirAll(filepath.Dir(crash), 0o755)
+				_ = os.WriteFile(crash, []byte(out), 0o644)
+				trouble = append(trouble, err.Error()+" (full output: "+crash+")\n"+head(out, 40)+"\n...\n"+tail(out, 30))
 			}
 			gotSummary = false
 			for _, m := range lines {
@@ -584,6 +588,14 @@ func check(prop, tier string) int {
 	writeEvidence(prop, tier, seed, meta, agg, len(sigset), nNew, wallS, workers)
 	fmt.Printf("%s %s: %d runs (%d non-trivial, %d distinct behaviours), %d self-checks ok, %d new violation(s), %.1fs\n", prop, tier, agg.Runs, agg.NonTrivial, len(sigset), agg.SelfChecks, nNew, wallS)
 	return exit
+}
+
+func head(s string, n int) string {
+	lines := strings.Split(s, "\n")
+	if len(lines) > n {
+		lines = lines[:n]
+	}
+	return strings.Join(lines, "\n")
 }
 
 func tail(s string, n int) string {
